@@ -19,7 +19,7 @@ ASSUMPTIONS = ["IEEE rounding of the implementation versus exact rationals is no
                "constructor arguments are numbers (None temperatures leave a stream uninitialised and are outside the statement)"]
 HDR = "From OP Require Import gen.Consts model.Base model.Stream model.Collection.\nRequire Import Coq.QArith.QArith Coq.Strings.String.\nLocal Open Scope Q_scope."
 
-TEMPS = [20.0, 50.0, 50.0, 80.0, 120.0, 50.5, 35.25, 50.000375, 49.999875, 80.0005]
+TEMPS = [20.0, 50.0, 50.0, 80.0, 120.0, 50.5, 35.25, 50.000375, 49.999875, 80.0005, 0.0, 0.0, -15.0]      # 0.0 is a temperature like any other
 SETTERS = ["t_supply", "t_target", "dt_cont", "heat_flow", "htc", "set_heat_flow"]
 SOP = {"t_supply": "SetTs", "t_target": "SetTt", "dt_cont": "SetDt", "heat_flow": "SetQ", "htc": "SetHtc", "set_heat_flow": "SetHeatFlow"}
 
@@ -64,7 +64,7 @@ def gen_stream_case(rng):
     for _ in range(rng.randint(0, 8)):
         nm = rng.choice(SETTERS)
         val = {"t_supply": rng.choice(TEMPS), "t_target": rng.choice(TEMPS), "dt_cont": rng.choice([0.0, 5.0, 10.0, 2.5]),
-               "heat_flow": rng.choice([0.0, 10.0, 40.0, -20.0]), "htc": rng.choice([0.5, 1.0, 4.0, 0.25]),
+               "heat_flow": rng.choice([0.0, 10.0, 40.0, -20.0]), "htc": rng.choice([0.5, 1.0, 4.0, 0.25, 0.0]),
                "set_heat_flow": rng.choice([0.0, 10.0, 40.0])}[nm]
         ops.append((nm, val))
     return init, ops
@@ -119,7 +119,9 @@ def stream_suite(ctx):
               ((100.0, 40.0, 5.0, 120.0, 2.0, 30.0), [("t_supply", 20.0)]),               # D19: kind crossing
               ((20.0, 80.0, 10.0, 60.0, 1.0, 0.0), [("t_target", 20.0), ("heat_flow", -5.0), ("set_heat_flow", 12.0)]),
               ((80.0, 20.0, 0.0, 10.0, 0.0, 40.0), [("htc", 4.0), ("dt_cont", 5.0), ("t_target", 120.0)]),
-              ((120.0, 120.0, 5.0, -300.0, 1.0, 0.0), [("dt_cont", 10.0)])]            # D54: isothermal hot stream, negative duty
+              ((120.0, 120.0, 5.0, -300.0, 1.0, 0.0), [("dt_cont", 10.0)]),            # D54: isothermal hot stream, negative duty
+              ((0.0, 60.0, 5.0, 30.0, 1.0, 0.0), [("t_target", 0.0), ("t_supply", -15.0), ("htc", 0.0), ("t_target", 40.0)]),   # 0 degC ends, zero film coefficient
+              ((40.0, 0.0, 2.5, 10.0, 2.0, 0.0), [("dt_cont", 5.0), ("t_supply", 0.0)])]
     cases = corpus + [gen_stream_case(ctx.rng) for _ in range(n)]
     if ctx.thorough:   # exhaustive: all op sequences of length <= 3 over a reduced alphabet from two initial streams
         red = [("t_supply", 20.0), ("t_supply", 80.0), ("t_target", 20.0), ("t_target", 80.0), ("heat_flow", 0.0), ("heat_flow", 10.0),
